@@ -8,8 +8,8 @@ import os, subprocess, tempfile, time
 import z3
 
 CVC5 = "/usr/bin/cvc5"
-DEFAULT_RLIMIT = int(os.environ.get("PYVC_RLIMIT", "30000000"))
-CVC5_TLIMIT_MS = int(os.environ.get("PYVC_CVC5_MS", "60000"))
+DEFAULT_RLIMIT = int(os.environ.get("PYVC_RLIMIT", "8000000"))
+CVC5_TLIMIT_MS = int(os.environ.get("PYVC_CVC5_MS", "20000"))
 
 
 def z3_check(pc, goal, rlimit=DEFAULT_RLIMIT):
